@@ -106,6 +106,25 @@ def h_ders(cx, p, kv, symk=False):
     cx.eq('basis_functions_ders', H.basis_functions_ders(p, K, [s], [u], order), [ders])
 
 
+def h_plural(cx, p, kv):
+    """list variants: the result for a list is the list of the single results, whatever precedes a parameter"""
+    H = geo.M('helpers')
+    K = _knots(cx, kv, False)
+    n = len(kv) - p - 1
+    us = []
+    for i in range(2):
+        u = cx.real('u%d' % i, lo=K[p], hi=K[n], param=True)
+        cx.snap(u, K)
+        us.append(u)
+    singles = [H.find_span_linear(p, K, n, u) for u in us]
+    for fn in ('find_span_linear', 'find_span_binsearch'):
+        cx.eq('find_spans[%s]' % fn, H.find_spans(p, K, n, list(us), getattr(H, fn)), singles)
+    cx.eq('find_spans[default]', H.find_spans(p, K, n, list(us)), singles)
+    cx.eq('find_spans[reversed]', H.find_spans(p, K, n, list(reversed(us))), list(reversed(singles)))
+    cx.eq('basis_functions', H.basis_functions(p, K, singles, list(us)), [H.basis_function(p, K, s, u) for s, u in zip(singles, us)])
+    cx.eq('basis_functions_ders', H.basis_functions_ders(p, K, singles, list(us), 1), [H.basis_function_ders(p, K, s, u, 1) for s, u in zip(singles, us)])
+
+
 def h_generate(cx, p, n, clamped):
     KV = geo.M('knotvector')
     kv = KV.generate(p, n, clamped=clamped)
@@ -180,6 +199,11 @@ def instances(tier):
             out.append(inst('basis p%d m%s' % (p, m), h_basis, min_paths=_spans(kv, p) + 1, p=p, kv=kv))
             out.append(inst('ders p%d m%s' % (p, m), h_ders, min_paths=_spans(kv, p), p=p, kv=kv))
         out.append(inst('basis p%d unclamped' % p, h_basis, min_paths=2, p=p, kv=fam.unclamped_uniform(p, p + 3)))
+        if p <= 3:
+            out.append(inst('basis p%d m(%d,) full-multiplicity knot' % (p, p + 1), h_basis, min_paths=2, p=p, kv=fam.pattern(p, (p + 1,))))
+            out.append(inst('basis p%d m(1,%d) full-multiplicity knot' % (p, p + 1), h_basis, min_paths=3, p=p, kv=fam.pattern(p, (1, p + 1))))
+            for m in sorted(set([(1,), (p,), (1, 2) if p >= 2 else (1, 1)])):
+                out.append(inst('plural p%d m%s' % (p, m), h_plural, timeout=600, p=p, kv=fam.pattern(p, m)))
         out.append(inst('ders p%d unclamped' % p, h_ders, min_paths=2, p=p, kv=fam.unclamped_unit(p, p + 2)))
         out.append(inst('basis p%d domain[2,5]' % p, h_basis, min_paths=2, p=p, kv=fam.pattern(p, (1, min(2, p)), 2, 5)))
     symk = [(1, (1,)), (1, (1, 1)), (2, (1,)), (2, (2,))] if quick else \
